@@ -143,7 +143,19 @@ def mask(s: str) -> str:
 
 def exc_repr(e: BaseException):
     t = type(e)
-    return ["exc", f"{t.__module__}.{t.__qualname__}", mask(str(e))[:400]]
+    name = f"{t.__module__}.{t.__qualname__}"
+    if hasattr(e, "line") and hasattr(e, "column") and t.__module__.startswith("lark"):
+        # lark prints its 'expected' *set* in iteration order, which differs between two
+        # equivalent parser objects: keep position, token and the sorted set instead
+        tok = getattr(e, "token", None)
+        exp = getattr(e, "expected", None) or getattr(e, "allowed", None) or ()
+        try:
+            exp = sorted(str(x) for x in exp)
+        except TypeError:
+            exp = []
+        msg = f"line {e.line} col {e.column} token {getattr(tok, 'type', None)}:{str(tok)[:40] if tok is not None else None} expected {','.join(exp)[:600]}"
+        return ["exc", name, msg]
+    return ["exc", name, mask(str(e))[:400]]
 
 
 def freeze(x, _depth=0):
@@ -198,6 +210,72 @@ def call(f, *a, **k):
     except Exception as e:  # noqa: BLE001
         return "exc", exc_repr(e), e
     return "ok", freeze(r), r
+
+
+# ---------------------------------------------------------------- pristine forks
+
+
+def in_fork(fn, timeout=120.0):
+    """Run fn() in a forked child of the *current* state and return its JSON-able
+    result. The child never returns into the caller's code. Used to obtain results
+    that cannot have been influenced by anything the current process does later,
+    and to keep the current process uninfluenced by the computation."""
+    import select
+    import signal
+
+    sys.stdout.flush()
+    sys.stderr.flush()
+    r, w = os.pipe()
+    pid = os.fork()
+    if pid == 0:
+        code = 0
+        try:
+            os.close(r)
+            # (no faulthandler here: its watchdog thread does not survive fork and
+            # re-arming it in the child blocks forever on the dead thread's lock)
+            signal.signal(signal.SIGALRM, signal.SIG_DFL)
+            signal.alarm(int(timeout) + 5)
+            try:
+                out = json.dumps({"ok": fn()}, default=str)
+            except BaseException as e:  # noqa: BLE001
+                out = json.dumps({"fork_error": "".join(traceback.format_exception(type(e), e, e.__traceback__))[-3000:]})
+            data = out.encode()
+            view = memoryview(data)
+            while view:
+                n = os.write(w, view[: 1 << 16])
+                view = view[n:]
+        except BaseException:  # noqa: BLE001
+            code = 3
+        finally:
+            os._exit(code)
+    os.close(w)
+    chunks = []
+    deadline = time.time() + timeout
+    try:
+        while True:
+            left = deadline - time.time()
+            if left <= 0:
+                os.kill(pid, signal.SIGKILL)
+                raise HarnessError("forked computation timed out")
+            rd, _, _ = select.select([r], [], [], min(left, 5.0))
+            if rd:
+                b = os.read(r, 1 << 20)
+                if not b:
+                    break
+                chunks.append(b)
+    finally:
+        os.close(r)
+        try:
+            os.waitpid(pid, 0)
+        except ChildProcessError:
+            pass
+    raw = b"".join(chunks)
+    if not raw:
+        raise HarnessError("forked computation died without a result")
+    res = json.loads(raw)
+    if "fork_error" in res:
+        raise HarnessError("forked computation failed: " + res["fork_error"])
+    return res["ok"]
 
 
 # ---------------------------------------------------------------- known findings
@@ -286,7 +364,7 @@ def minimise(check, case: dict, violation: dict, budget_s=60.0):
             return None
         steps += 1
         try:
-            r = check.execute(c)
+            r = in_fork(lambda: check.execute(c), timeout=check.run_timeout_s) if check.isolate else check.execute(c)
         except HarnessError:
             return None
         v = r.get("violation")
@@ -358,6 +436,7 @@ class Check:
     thorough_budget_s = 1500.0
     chunk = 8
     run_timeout_s = 120.0
+    isolate = False  # True: every run (and every minimisation step) in its own forked process
 
     def setup(self):
         """Called once in the parent before forking (imports, corpus, oracles)."""
@@ -397,6 +476,21 @@ def _worker_chunk(args):
     out = []
     for idx in idxs:
         seed = run_seed(base_seed, check.pid, idx)
+        if check.isolate:
+            # every run in its own pristine fork of this (never-executing) worker
+            try:
+                rec = in_fork(lambda: _one_run(check, seed, tier, idx), timeout=check.run_timeout_s)
+            except HarnessError as e:
+                rec = {"idx": idx, "seed": seed, "harness_error": str(e)}
+            out.append(rec)
+            continue
+        out.append(_one_run(check, seed, tier, idx))
+    faulthandler.cancel_dump_traceback_later()
+    return out
+
+
+def _one_run(check, seed, tier, idx):
+    if True:
         try:
             case = check.generate(seed, tier)
             r = check.execute(case)
@@ -410,7 +504,7 @@ def _worker_chunk(args):
                 "violation": r.get("violation"),
             }
             if r.get("violation") or idx < 3:
-                rec["case"] = case
+                rec["case"] = r.get("case_explicit") or case
             if r.get("cover"):
                 rec["cover"] = r["cover"]
         except Exception as e:  # noqa: BLE001
@@ -421,9 +515,7 @@ def _worker_chunk(args):
                     traceback.format_exception(type(e), e, e.__traceback__)
                 )[-3000:],
             }
-        out.append(rec)
-    faulthandler.cancel_dump_traceback_later()
-    return out
+        return rec
 
 
 def run_batch(check: Check, tier: str, base_seed: int, script: str) -> int:
@@ -717,7 +809,8 @@ def main(check: Check, script: str):
             check.setup()
             for i in range(a.digests):
                 seed = run_seed(env_seed(), check.pid, i)
-                r = check.execute(check.generate(seed, tier))
+                case_ = check.generate(seed, tier)
+                r = in_fork(lambda: check.execute(case_), timeout=check.run_timeout_s) if check.isolate else check.execute(case_)
                 print(f"DIGEST {i} {r.get('digest')} {r.get('steps')} {vclass(r['violation']) if r.get('violation') else '-'}")
             sys.exit(EXIT_OK)
         if a.one is not None:
